@@ -198,11 +198,11 @@ pub fn eval(case: &Case, st: &mut Stats) -> Result<(), String> {
 
 pub fn subchecks(tier: Tier) -> Vec<SubCheck> {
     vec![
-        systematic(tier.pick(8, 1)),
+        systematic(tier.pick(3, 1)),
         generated(
             "generated_pairs",
             "pairs of strings <= 64: independent, derived by edits, normalised pairs with a transplanted window of 5..8 symbols (also judged through FuzzyHashCompareTarget and is_comparison_candidate in the eq / near-lt / near-gt relations), constant and binary strings, strings shorter than 7; non-trivial = both >= 7 long; distinct by (a,b)",
-            tier.pick(100_000, 2_000_000),
+            tier.pick(1_000_000, 15_000_000),
             strategy,
             eval,
         ),
